@@ -37,6 +37,7 @@ type Report struct {
 	Level       string
 	Start       time.Time
 	Obs         []Obligation
+	Only        map[string]bool // when set, only these rules are recorded (a rule family shared between properties)
 	seen        map[string]int
 	Analysed    map[string]int
 	minCount    map[string]int
@@ -81,6 +82,9 @@ func loadKnown(path string) []KnownFinding {
 // Rule declares a rule used by this check, its one-line statement and the minimum number of
 // instances confirmed by hand on the pinned tree: a rule that matches fewer can never pass.
 func (r *Report) Rule(id, doc string, min int) {
+	if r.Only != nil && !r.Only[id] {
+		return
+	}
 	r.ruleDoc[id] = doc
 	if min > r.minCount[id] {
 		r.minCount[id] = min
@@ -91,6 +95,9 @@ func (r *Report) Rule(id, doc string, min int) {
 }
 
 func (r *Report) add(o Obligation) {
+	if r.Only != nil && !r.Only[o.Rule] && !strings.HasPrefix(o.Detail, "UNDECIDED") {
+		return
+	}
 	r.seen[o.Rule]++
 	r.Obs = append(r.Obs, o)
 }
